@@ -40,7 +40,8 @@ static FULL: std::sync::atomic::AtomicBool = std::sync::atomic::AtomicBool::new(
 fn box_of<const N: usize>(name: &str) -> [Comp; N] { let b = space_box(name); let mut o = [Comp::R(0.0, 0.0); N]; for i in 0..N { o[i] = b[i]; } o }
 fn cols<T: F, const N: usize>(name: &str) -> Vec<[T; N]> {
     let base = name.split(':').next().unwrap();
-    lattice_colours::<T, N>(&box_of::<N>(name), !FULL.load(std::sync::atomic::Ordering::Relaxed), if base == "Hwb" || base == "Okhwb" { Some((1, 2)) } else { None })
+    let (small, sl) = (!FULL.load(std::sync::atomic::Ordering::Relaxed), if base == "Hwb" || base == "Okhwb" { Some((1, 2)) } else { None });
+    with_interior(base, &box_of::<N>(name), small, sl, lattice_colours::<T, N>(&box_of::<N>(name), small, sl))
 }
 
 // ------------------------------------------------------------------------------------------------ operators
